@@ -14,3 +14,10 @@ Theorem C06_limit : C06_limit_stmt.
 Proof. exact C06_limit_proof. Qed.
 Print Assumptions C06_limit.
 
+(* the boolean monitor that judges implementation steps for this property is passed by every
+   step of the model *)
+From NasimV Require Import Monitors.
+From NasimV.proofs Require Import PMonitors.
+Theorem monitor_C06_sound : forall sc st a k, ok_C06 sc (model_rec sc st a k) = true.
+Proof. exact model_passes_C06. Qed.
+Print Assumptions monitor_C06_sound.
